@@ -33,6 +33,9 @@ for sid in sorted(os.listdir(sd)):
     m = json.load(open(mp))
     db = m.get('detected_by') or {}
     caught = db.get('caught_by')
+    if m.get('neutralised'):
+        t3.append('| %s | %s | neutralised | %s |' % (sid, esc(m.get('summary', ''))[:260], esc(m['neutralised'])[:200]))
+        continue
     what = ''
     if caught:
         w = (db['checks_run'][caught[0]].get('what') or {})
